@@ -933,9 +933,12 @@ def x_dump_file(data=None, path=None, want_dis=True, max_code=None, route="load_
     """Everything xdis decodes from one bytecode file, canonically."""
     x = xd()
     r = {}
-    if route == "load_module":
+    if route in ("load_module", "native2portable"):
         tup = x_load_bytes(data, path)
         version, ts, magic_int, co, is_pypy, size, sip = tup
+        if route == "native2portable" and isinstance(co, types.CodeType):
+            # the native code object the fast path returned, converted like xasm / decompilers do
+            co = x.codetype.codeType2Portable(co)
     else:
         # portable unmarshaller on the payload behind the header, whatever the host
         if data is None:
@@ -1180,7 +1183,7 @@ def op_x_c07(req):
     path = scratch_path("c07.pyc")
     with open(path, "wb") as f:
         f.write(data)
-    r = x_dump_file(data=data, path=path if req["route"] == "load_module" else None, want_dis=True,
+    r = x_dump_file(data=data, path=path if req["route"] in ("load_module", "native2portable") else None, want_dis=True,
                     max_code=req.get("max_code"), route=req["route"], dup_lines=True)
     out = {"tree": r["tree"], "dis": r["dis"], "native": r["native"], "header": r["header"]}
     if req.get("listing"):
